@@ -23,6 +23,8 @@ def specs_for(ctx):
         specs.append(json.loads(f.read_text()))
     specs += opskit.all_orders_specs(ctx.rng)
     specs += opskit.precondition_specs(ctx.rng, ctx.n(6, 60))
+    specs += opskit.large_population_specs(ctx.rng, ctx.n(3, 12))   # more than 32 individuals
+    specs += opskit.new_species_specs(ctx.rng, ctx.n(12, 120))     # a later speciation founds new species; earlier populations re-inspected
     specs += opskit.empty_population_specs()  # correspondence only: outside the claim (non-empty populations)
     specs += opskit.merge_specs(ctx.rng, ctx.n(12, 120))
     specs += opskit.boundary_selection_specs(ctx.rng, ctx.n(40, 400))
@@ -38,7 +40,7 @@ def run(ctx):
     ctx.rule = RULE
     if not opskit.selftest_random():
         raise RuntimeError("logging Random does not reproduce random.Random")
-    opskit.drive(ctx, "C10", specs_for(ctx), opskit.oracle_c10, None, "check_case", "model-vs-impl")
+    opskit.drive(ctx, "C10", specs_for(ctx), opskit.oracle_c10, opskit.oracle_c10_end, "check_case", "model-vs-impl")
     ctx.notes["all_completion_orders"] = "every completion permutation of 4 tasks for selection and for topological+parameter search (48 runs)"
 
 
@@ -47,7 +49,7 @@ def replay(ctx, payload):
         return translate.replay(ctx, payload, "C10")
     spec = payload.get("case") or payload.get("failing_input")
     spec = {k: v for k, v in spec.items() if k != "failing_step"}
-    kept = opskit.drive(ctx, "C10_replay", [spec], opskit.oracle_c10, None, "check_case", "model-vs-impl")
+    kept = opskit.drive(ctx, "C10_replay", [spec], opskit.oracle_c10, opskit.oracle_c10_end, "check_case", "model-vs-impl")
     for v in ctx.violations:
         print(f"{v['kind']}: {v['key']}: {v['what']}")
     print("impl-vs-property:", "FAILS" if any(v["kind"] == "oracle" for v in ctx.violations) else "ok")
